@@ -41,6 +41,18 @@ fn main() {
         } else {
             let _ = std::io::stdin().read_to_end(&mut data);
         }
+        if std::env::var_os("CHILDSTUB_TALKATIVE").is_some() {
+            // a preprocessor that survives a closed pipe and complains about it (a shell or
+            // Python script does that): failed write -> a line on stderr, exit status 1
+            unsafe { libc::signal(libc::SIGPIPE, libc::SIG_IGN) };
+            for chunk in data.chunks(4096) {
+                if out.write_all(chunk).and_then(|_| out.flush()).is_err() {
+                    eprintln!("childstub: could not deliver {path}: write failed");
+                    std::process::exit(1);
+                }
+            }
+            return;
+        }
         let _ = out.write_all(&data);
         return;
     };
